@@ -456,6 +456,14 @@ func (e *Exec) store(st *State, fr *Frame, p *PtrV, v Value, pos token.Pos) {
 	}
 	l := e.locOf(p)
 	e.frameCheck(st, fr, l, pos)
+	if f, ok := v.(*FuncV); ok && f.Opq == nil && f.Fn != nil && len(f.Bind) > 0 {
+		// a closure with captured variables stored in memory: from then on an opaque, non-nil function value (what it
+		// does when it is called later is unknown to the caller, like any function value loaded from a field)
+		o := Fresh("closure", SInt)
+		st.Assume(Not(Eq(o, IntConst(0))))
+		e.note("a closure stored in memory (" + fmt.Sprint(f.Fn) + ") is an opaque non-nil function value from then on")
+		v = &FuncV{Opq: o}
+	}
 	st.StoreLoc(l, v)
 }
 
